@@ -577,7 +577,7 @@ class Sampler(BaseSampler, Module):
         # $012f int32_t editor_selected_size;
         self.editor_selected_size = r.int32(0)
 
-        if not self.is_legacy and len(data) >= 0x190:
+        if not self.is_legacy and len(data) > 0x190:
             log.warning(f"legacy instrument data of length {len(data)}")
             self.is_legacy = True
         if not self.is_legacy:
